@@ -448,6 +448,10 @@ def generate(rng, tier):
     for _ in range(10 * mult):
         ver = rng.choice((48, 64))
         d = rng.randrange(0, 6) if ver == 48 else rng.randrange(6, len(DIALECTS))     # a dialect of the same family
+        if ver == 48 and rng.random() < 0.3:
+            # an EUI-48 that was given an EUI-64 dialect (the constructor and the setter accept it; it prints
+            # eight words): the clone must keep it (the other pairing cannot be printed, so it is not generated)
+            d = rng.randrange(6, len(DIALECTS))
         v = rng.choice([0, 1, (1 << ver) - 1, rng.getrandbits(ver), rng.getrandbits(24), 1 << 47 if ver == 48 else 1 << 63])
         for how in HOWS:
             cases.append(c_rt(('E', ver, v, d), how))
